@@ -91,6 +91,24 @@ func (t TMap) Tags() ([]encrypt.PointerTag, error) {
 	return toPointerTags(tagRegistry[id]), nil
 }
 
+// PTMap / PTStruct: Taggable through a POINTER receiver only (as generated protobuf messages are): the value itself is
+// no Taggable, a pointer to it is
+type PTMap map[string]interface{}
+
+func (t *PTMap) Tags() ([]encrypt.PointerTag, error) {
+	id, _ := (*t)["__id"].(int)
+	return toPointerTags(tagRegistry[id]), nil
+}
+
+type PTStruct struct {
+	ID  int
+	Sec string `class:"secret"`
+	Unt string
+	M   map[string]interface{}
+}
+
+func (t *PTStruct) Tags() ([]encrypt.PointerTag, error) { return toPointerTags(tagRegistry[t.ID]), nil }
+
 // TStructA: a Taggable struct whose tags point into its two map fields
 type TStructA struct {
 	ID   int
@@ -158,6 +176,7 @@ var handTypes = map[string]reflect.Type{
 	"TStructB": reflect.TypeOf(TStructB{}),
 	"UnexpA":   reflect.TypeOf(UnexpA{}),
 	"EWI":      reflect.TypeOf(EWI{}),
+	"PTStruct": reflect.TypeOf(PTStruct{}),
 	"Ign":      reflect.TypeOf(Ign{}),
 }
 
@@ -197,6 +216,7 @@ var (
 	tWStr   = reflect.TypeOf(wrapperspb.StringValue{})
 	tWBytes = reflect.TypeOf(wrapperspb.BytesValue{})
 	tTMap   = reflect.TypeOf(TMap{})
+	tPTMap  = reflect.TypeOf(PTMap{})
 	tJNum   = reflect.TypeOf(json.Number(""))
 	tRole   = reflect.TypeOf(Role(""))
 )
@@ -252,6 +272,8 @@ func typeOf(v *V) reflect.Type {
 		return reflect.MapOf(tString, typeOf(v.Vals[0]))
 	case "tmap":
 		return tTMap
+	case "ptmap":
+		return tPTMap
 	}
 	panic("typeOf " + v.K)
 }
@@ -332,7 +354,7 @@ func valueOf(v *V) reflect.Value {
 				setField(fv, val.Convert(fv.Type()))
 			}
 		}
-		if v.Hand == "TStructA" || v.Hand == "TStructB" {
+		if v.Hand == "TStructA" || v.Hand == "TStructB" || v.Hand == "PTStruct" {
 			r.FieldByName("ID").SetInt(int64(regTags(v.Tags)))
 		}
 		return r
@@ -360,6 +382,12 @@ func valueOf(v *V) reflect.Value {
 		return r
 	case "tmap":
 		m := TMap{"__id": regTags(v.Tags)}
+		for i, k := range v.Keys {
+			m[k] = valueOf(v.Vals[i]).Interface()
+		}
+		return reflect.ValueOf(m)
+	case "ptmap":
+		m := PTMap{"__id": regTags(v.Tags)}
 		for i, k := range v.Keys {
 			m[k] = valueOf(v.Vals[i]).Interface()
 		}
@@ -407,7 +435,11 @@ func tagsLit(ts []PTag, forStruct bool) string {
 	return "(Some " + hc.List(items) + ")"
 }
 
-func (p *projector) lit(rv reflect.Value) string {
+func (p *projector) lit(rv reflect.Value) string { return p.litp(rv, false) }
+
+// viaPtr: the value is the target of a pointer (a type that is Taggable through a pointer receiver only is Taggable there
+// and nowhere else: held by value it is an ordinary map / struct)
+func (p *projector) litp(rv reflect.Value, viaPtr bool) string {
 	if !rv.IsValid() {
 		return "(VPtr None)"
 	}
@@ -416,12 +448,12 @@ func (p *projector) lit(rv reflect.Value) string {
 		if rv.IsNil() {
 			return "(VPtr None)"
 		}
-		return p.lit(rv.Elem())
+		return p.litp(rv.Elem(), false)
 	case reflect.Ptr:
 		if rv.IsNil() {
 			return "(VPtr None)"
 		}
-		return "(VPtr (Some " + p.lit(rv.Elem()) + "))"
+		return "(VPtr (Some " + p.litp(rv.Elem(), true) + "))"
 	case reflect.String:
 		switch rv.Type() {
 		case tJNum:
@@ -467,7 +499,7 @@ func (p *projector) lit(rv reflect.Value) string {
 		return "(VSlice " + hc.List(items) + ")"
 	case reflect.Map:
 		tg := "None"
-		if rv.Type() == tTMap {
+		if rv.Type() == tTMap || (rv.Type() == tPTMap && viaPtr) {
 			id := 0
 			if idv := rv.MapIndex(reflect.ValueOf("__id")); idv.IsValid() {
 				if i, ok := idv.Interface().(int); ok {
@@ -498,7 +530,7 @@ func (p *projector) lit(rv reflect.Value) string {
 			return "(VOther " + hc.Z(rv.Interface().(time.Time).Unix()) + ")"
 		}
 		tg := "None"
-		if rv.Type() == handTypes["TStructA"] || rv.Type() == handTypes["TStructB"] {
+		if rv.Type() == handTypes["TStructA"] || rv.Type() == handTypes["TStructB"] || (rv.Type() == handTypes["PTStruct"] && viaPtr) {
 			tg = tagsLit(tagRegistry[int(rv.FieldByName("ID").Int())], true)
 		}
 		var items []string
